@@ -263,8 +263,9 @@ def _r2(ctx, pkg):
 
 def _r3(ctx, pkg):
     sp = pkg.cls("Species")
-    pfn = pkg.method("Species", "_parse_molecule_name")
-    afn = pkg.method("Species", "_add_element_count")
+    from ..pymodel import species_count_method, species_parse_method
+    _, pfn = species_parse_method(pkg)
+    _, afn = species_count_method(pkg)
     uses_regex = any(isinstance(c, ast.Call) and ast.unparse(c.func) in ("re.finditer", "re.search", "re.match", "re.findall") and
                      isinstance(c.args[0], ast.Name) for c in ast.walk(pfn))
     uses_literal = "in self._known_pseudoelements" in ast.unparse(afn)
